@@ -131,6 +131,11 @@ class BlockAPI(Machine):
                 if m and not isinstance(v.get('init'), dict):
                     env[v['n']] = ('p', self.region(int(m.group(1)), 'local:' + v['n']), 0)
                     continue
+                if re.match(r'^(?:const )?(?:uint8_t|unsigned char|char)\[.*\]$', v.get('t') or '') and not isinstance(v.get('init'), dict):
+                    # variable-length array of octets: its length is an expression of the function; the accesses are checked
+                    # against a window large enough for the words the driver uses
+                    env[v['n']] = ('p', self.region(8, 'vla:' + v['n']), 0)
+                    continue
                 m = re.match(r'^struct iovec\[(\d+)\]$', v.get('t') or '')
                 if m:
                     env[v['n']] = ('p', self.region(int(m.group(1)), 'iov:' + v['n']), 0)
@@ -177,7 +182,23 @@ class BlockAPI(Machine):
             return obj[1]
         return None
 
+    # ---- variable argument lists: ('va', id) designates [values, position] ------------------------
+    def new_valist(self, values):
+        self.valists = getattr(self, 'valists', {})
+        i = len(self.valists) + 1
+        self.valists[i] = [list(values), 0]
+        return ('va', i)
+
     def eval(self, fn, n, env, depth):
+        if isinstance(n, dict) and n.get('k') == 'va_arg':
+            l = Machine.eval(self, fn, n['e'], env, depth)
+            if not (isinstance(l, tuple) and l[0] == 'va'):
+                raise Undecided('va_arg on an unknown list')
+            st = self.valists[l[1]]
+            if st[1] >= len(st[0]):
+                raise Finding('va_arg past the last argument', n.get('l'), 'argument %d of %d' % (st[1] + 1, len(st[0])))
+            st[1] += 1
+            return st[0][st[1] - 1]
         v = Machine.eval(self, fn, n, env, depth)
         # &block->ubuf is the segment itself (struct ubuf is embedded in struct ubuf_block)
         if isinstance(v, tuple) and len(v) == 5 and v[0] == 'addr' and v[1] == 'field' and v[4] == 'ubuf' and isinstance(v[2], tuple) and v[2][0] == 'seg':
@@ -224,6 +245,21 @@ class BlockAPI(Machine):
             raise NotImplementedError
         if name in ('__assert_fail', 'abort'):
             raise PathEnd()
+        if name in ('__builtin_va_copy', '__builtin_va_end', '__builtin_va_start'):
+            if name == '__builtin_va_copy':
+                src = self.eval(fn, args[1], env, depth)
+                if not (isinstance(src, tuple) and src[0] == 'va'):
+                    raise Undecided('va_copy of an unknown list')
+                dst = fn.resolve(args[0])
+                while isinstance(dst, dict) and dst.get('k') in ('cast', 'paren'):
+                    dst = fn.resolve(dst.get('e'))
+                if not (isinstance(dst, dict) and dst.get('k') == 'ref'):
+                    raise Undecided('va_copy into something that is not a variable')
+                st = self.valists[src[1]]
+                new = self.new_valist(st[0])
+                self.valists[new[1]][1] = st[1]
+                env[dst['n']] = new
+            return None
         v = [self.eval(fn, a, env, depth) for a in args]
         if name == 'ubase_check':
             return SYM if not isinstance(v[0], int) else int(v[0] == 0)
